@@ -2447,6 +2447,9 @@ func (ex *Exec) builtin(s *astate, fr *aframe, x *ssa.Call, name string, args []
 					if d.Len < n {
 						n = d.Len
 					}
+				case src.K == ASlice && src.Len < 0 && d.Len >= 0 && s.facts["len("+argName(src)+")"][0] >= uint64(d.Len):
+					// the source is known (from a branch) to be at least as long as the destination
+					n = d.Len
 				case src.K == ASlice && src.Len >= 0 && d.Len < 0 && !s.mem.isFresh(d.Path):
 					// a destination handed in by the caller: taken to be long enough
 					n = src.Len
@@ -2566,6 +2569,20 @@ func elemType(t types.Type) types.Type {
 func (ex *Exec) intrinsic(s *astate, name string, args []AVal, x *ssa.Call) (AVal, bool) {
 	const pre = "encoding/binary."
 	if !strings.HasPrefix(name, pre) {
+		return AVal{}, false
+	}
+	if name == pre+"Read" && len(args) == 3 && args[2].K == APtr && !args[2].Sym {
+		// binary.Read(r, order, &x): x receives octets of the input — fresh named sources
+		if mi, ok := x.Call.Args[2].(*ssa.MakeInterface); ok {
+			if pt, ok := mi.X.Type().Underlying().(*types.Pointer); ok {
+				s.serial++
+				v := unknownOf(fmt.Sprintf("%s@read%d", args[2].Path, s.serial), pt.Elem(), false)
+				registerSources(v)
+				s.mem.Store(args[2].Path, v, pt.Elem())
+				r := unknownOf(fmt.Sprintf("call:encoding/binary.Read#%d", s.serial), x.Type(), false)
+				return r, true
+			}
+		}
 		return AVal{}, false
 	}
 	rest := name[len(pre):]
